@@ -28,7 +28,7 @@ Proof. unfold belowb, below. intros Hb h ->. by apply bool_decide_eq_true in Hb.
 
 Lemma op_ok2b_spec s o : op_ok2b s o = true → op_ok2 s o.
 Proof.
-  destruct o as [o| | | |m [x|]| | | |u [x|]| | | | |]; cbn; try done; try apply belowb_spec.
+  destruct o as [o| | | |m [x|]| | | |u [x|]| | | | | | |]; cbn; try done; try apply belowb_spec.
   - destruct o; cbn; try done; try apply belowb_spec. apply op_okb_spec.
   - by intros ?%bool_decide_eq_true.
   - by intros ?%bool_decide_eq_true.
